@@ -98,8 +98,9 @@ theorem warm_trusted_rest_evaluated {b : Backend σ} {sp : Space} {obj : Obj} {o
         (∀ res, m0.get? k = some res → t.eval.fresh = false ∧ t.eval.res = res) ∧
         (m0.get? k = none → t.eval.res = od t.value)
   have hstep : ∀ i (d d1 : DState σ) (cs cs1 : CState) p v e, MemWarm od sp m0 cs.mem →
-      StepFacts sp obj c i d d1 cs cs1 p v e → MemWarm od sp m0 cs1.mem ∧ Q (p, v, e) := by
-    intro i d d1 cs cs1 p v e hP f
+      StepFacts sp obj c i d d1 cs cs1 p v e → BStep b (i < cs.nInitsNorm) d.bst d1.bst p e.res.score →
+      MemWarm od sp m0 cs1.mem ∧ Q (p, v, e) := by
+    intro i d d1 cs cs1 p v e hP f _
     obtain ⟨hP1, k, hk, h1, h2⟩ := evalAt_warm hwf hdet hmem hP f.hv f.he
     exact ⟨by rw [f.mem]; exact hP1, f.hv, k, hk, h1, h2⟩
   have hstart : ∀ cs, initSearch sp c d = .ok cs → MemWarm od sp m0 cs.mem := by
